@@ -114,6 +114,23 @@ impl Prop for C09 {
             .filter(|e| matches!(e, crate::scenario::ReadEv::Err(_) | crate::scenario::ReadEv::Stall(_)))
             .count();
         let verify = rng.chance(1, 2);
+        let mut ops = Vec::new();
+        if rng.chance(1, 4) {
+            // the application may have asked for any protocol version in its own handshake:
+            // the gate still accepts 9 only
+            let mut f = vec![0u8; 44];
+            f[0] = mode.size_byte(44);
+            f[1] = 1;
+            f[2] = rng.byte();
+            f[8] = *rng.pick(&[9u8, 9, 8, 7, 10, 0, 255]);
+            f[28] = b'x';
+            if crate::model::ref_decode(mode, &f).is_pkt() {
+                ops.push(AppOp::Handshake(f));
+            }
+        }
+        ops.push(AppOp::Drain {
+            max: (frames.len() + errs + 3) as u32,
+        });
         StreamScenario {
             imp,
             mode,
@@ -124,9 +141,7 @@ impl Prop for C09 {
             inbound,
             reads,
             writes: vec![],
-            ops: vec![AppOp::Drain {
-                max: (frames.len() + errs + 3) as u32,
-            }],
+            ops,
         }
     }
 
@@ -138,6 +153,9 @@ impl Prop for C09 {
             r.probe("gate_off_explicit_runs");
         } else {
             r.probe("gate_off_default_runs");
+        }
+        if sc.ops.iter().any(|o| matches!(o, AppOp::Handshake(f) if f.len() > 8 && f[8] != 9)) {
+            r.probe("handshake_asked_for_other_version");
         }
         r
     }
@@ -169,6 +187,7 @@ impl Prop for C09 {
             "gate_on_runs",
             "gate_off_explicit_runs",
             "gate_off_default_runs",
+            "handshake_asked_for_other_version",
         ]
     }
 }
